@@ -64,6 +64,71 @@ theorem parseCompound_writeRtcp (fmt pt : Nat) (body rest : Bytes) (hf : fmt < 3
     | error e => rfl
     | ok ps => cases o <;> rfl
 
+/-- the TWCC arm (RTCP padding when the body is not aligned): the parser strips the padding and hands
+exactly `body` to the TWCC parser -/
+theorem parseCompound_twccWire (body rest : Bytes) (hlen : body.length + 3 < 262144) :
+    parseCompound (twccWire body ++ rest) =
+      match parseOne c15RtcpRtpfb c15FmtTwcc body with
+      | .error e => .error e
+      | .ok o =>
+        match parseCompound rest with
+        | .error e => .error e
+        | .ok ps => .ok (match o with | some p => p :: ps | none => ps) := by
+  have hfmt : c15FmtTwcc < 32 := by rw [c15FmtTwcc_val]; omega
+  have hptv : c15RtcpRtpfb < 256 := by rw [c15RtcpRtpfb_val]; omega
+  unfold twccWire
+  by_cases hp : pad4 body.length = 0
+  · simp only [hp, if_true]
+    rw [parseCompound_writeRtcp _ _ body rest hfmt hptv hlen]
+    have : padded body = body := by simp [padded, hp]
+    rw [this]
+  · simp only [hp, if_false]
+    have hp3 := pad4_lt body.length
+    have hal := pad4_aligned body.length
+    generalize hk : pad4 body.length = k at hp hp3 hal
+    generalize hBd : body ++ List.replicate (k - 1) 0 ++ [u8 k] = B
+    have hBl : B.length = body.length + k := by rw [← hBd]; simp; omega
+    have hB4 : B.length % 4 = 0 := by omega
+    have hw : writeRtcp c15FmtTwcc c15RtcpRtpfb B =
+        u8 (c15RtpVersion * 64 + c15FmtTwcc % 32) :: u8 c15RtcpRtpfb :: (be16n ((B.length + 4) / 4 - 1) ++ B) := by
+      simp [writeRtcp, pad4_zero hB4]
+    rw [hw]
+    simp only [be16n, List.cons_append, List.nil_append]
+    rw [parseCompound]
+    have hv : (u8 (c15RtpVersion * 64 + c15FmtTwcc % 32) ||| 0x20).toNat = 175 := by
+      simp [c15RtpVersion_val, c15FmtTwcc_val, u8]
+    have hl : (rd16 (u8 (((B.length + 4) / 4 - 1) / 256 % 256)) (u8 (((B.length + 4) / 4 - 1) % 256))).toNat * 4 = B.length := by
+      rw [rd16_be16n]; omega
+    have hptn : (u8 c15RtcpRtpfb).toNat = c15RtcpRtpfb := u8_toNat_lt hptv
+    rw [if_neg (by rw [hv, c15RtpVersion_val]; omega)]
+    simp only [hv, hl, hptn]
+    have h2 : ((175 : Nat) / 32 % 2 == 1) = true := by decide
+    have h3 : (175 : Nat) % 32 = c15FmtTwcc := by rw [c15FmtTwcc_val]
+    rw [h2, h3]
+    simp only [if_true, List.length_append, Bool.true_and]
+    rw [if_neg (by omega)]
+    simp only [List.take_left']
+    have hlast : B.getLast? = some (u8 k) := by rw [← hBd]; simp
+    have hkn : (u8 k).toNat = k := u8_toNat_lt (by omega)
+    simp only [hlast, Option.getD_some, hkn]
+    have hcond : (decide (k = 0) || decide (k > B.length)) = false := by
+      have h1 : ¬ k = 0 := hp
+      have h2 : ¬ k > B.length := by omega
+      simp [h1, h2]
+    rw [hcond]
+    simp only [Bool.false_eq_true, if_false]
+    have htake : B.take (B.length - k) = body := by
+      have : B.length - k = body.length := by omega
+      rw [this, ← hBd, List.append_assoc, List.take_left' rfl]
+    rw [htake, List.drop_left']
+    · cases parseOne c15RtcpRtpfb c15FmtTwcc body with
+      | error e => rfl
+      | ok o =>
+        cases parseCompound rest with
+        | error e => rfl
+        | ok ps => cases o <;> rfl
+    · rfl
+
 /-! ### report blocks, SR, RR -/
 
 /-- RFC 3550 saturation of the cumulative loss count to 24-bit signed -/
@@ -441,7 +506,7 @@ theorem sdesBody_length_mod (cs : List SdesChunk) : (sdesBody [] cs).length % 4 
 value the marshaller accepts, in or out of the property's ranges: the loss count saturates at 24-bit
 signed, a BYE reason is cut at 255 bytes (then read lossily), a NACK list comes back as the packed
 pairs enumerate it, a REMB bitrate is rounded down to 18 significant bits, the TWCC reference time is
-taken modulo 2^24 and an unaligned TWCC payload grows by its zero padding. -/
+taken modulo 2^24 (its opaque payload is preserved for every length since the RTCP-padding `fix:`). -/
 def canon : Rtcp → Rtcp
   | .sr s m l t p o bl => .sr s m l t p o (bl.map canonBlock)
   | .rr s bl => .rr s (bl.map canonBlock)
@@ -451,8 +516,7 @@ def canon : Rtcp → Rtcp
   | .fir s rq => .fir s rq
   | .nack s m lost => .nack s m (unpackNack (packNack lost))
   | .remb s br ss => .remb s (rembCanon br) ss
-  | .twcc s m b c r f pl => .twcc s m b c (UInt32.ofNat (r.toNat % 16777216)) f
-      (pl ++ List.replicate (pad4 pl.length) 0)
+  | .twcc s m b c r f pl => .twcc s m b c (UInt32.ofNat (r.toNat % 16777216)) f pl
 
 /-- Domain of the canonical-form law: what the Rust types guarantee (`u64` bitrate, `String` = valid
 UTF-8), SDES item type ≠ END, and bodies that fit the 16-bit RTCP length field. -/
@@ -624,10 +688,16 @@ theorem parse_marshalOne (p : Rtcp) (hd : Dom p) (bs : Bytes) (hm : marshalOne p
     have hd' : pl.length ≤ 200000 := hd
     have hl : (twccBody s m b c r f pl).length = 16 + pl.length := by
       simp [twccBody]; omega
-    apply readsAs_of _ _ _ _ _ (by rw [c15FmtTwcc_val]; omega) hFb (by omega)
-    rw [parseOne_twcc, padded, parseTwcc_body, hl]
-    have : pad4 (16 + pl.length) = pad4 pl.length := by unfold pad4; omega
+    unfold ReadsAs
+    rw [parseCompound_twccWire _ _ (by omega), parseOne_twcc]
+    have := parseTwcc_body s m b c r f pl []
+    simp only [List.append_nil] at this
     rw [this]; rfl
+
+end RtcModel.C15
+
+namespace RtcModel.C15
+open RtcModel.Generated
 
 /-! ### ranges of the property per packet type -/
 
@@ -647,7 +717,7 @@ def Rtcp.WF : Rtcp → Prop
   | .fir _ rq => rq.length ≤ 30000
   | .nack _ _ lost => lost ≠ [] ∧ lost.length ≤ 60000 ∧ unpackNack (packNack lost) = lost
   | .remb _ br ss => ss.length ≤ 255 ∧ br < 2 ^ 64 ∧ rembCanon br = br
-  | .twcc _ _ _ _ r _ pl => r.toNat < 16777216 ∧ pl.length % 4 = 0 ∧ pl.length ≤ 200000
+  | .twcc _ _ _ _ r _ pl => r.toNat < 16777216 ∧ pl.length ≤ 200000
 
 theorem map_canonBlock_of_ok {bl : List ReportBlock} (h : BlocksOk bl) : bl.map canonBlock = bl := by
   have : ∀ b ∈ bl, canonBlock b = b := fun b hb => canonBlock_of_range (h.2 b hb).1 (h.2 b hb).2
@@ -664,7 +734,7 @@ theorem dom_of_wf {p : Rtcp} (w : p.WF) : Dom p := by
   | fir s rq => exact w
   | nack s m lost => exact w.2.1
   | remb s br ss => exact w.2.1
-  | twcc s m b c r f pl => exact w.2.2
+  | twcc s m b c r f pl => exact w.2
   | _ => trivial
 
 theorem canon_of_wf {p : Rtcp} (w : p.WF) : canon p = p := by
@@ -684,8 +754,8 @@ theorem canon_of_wf {p : Rtcp} (w : p.WF) : canon p = p := by
   | nack s m lost => simp only [canon, w.2.2]
   | remb s br ss => simp only [canon, w.2.2]
   | twcc s m b c r f pl =>
-    obtain ⟨hr, hp, _⟩ := w
-    simp only [canon, pad4_zero hp, List.replicate_zero, List.append_nil, Nat.mod_eq_of_lt hr, UInt32.ofNat_toNat]
+    obtain ⟨hr, _⟩ := w
+    simp only [canon, Nat.mod_eq_of_lt hr, UInt32.ofNat_toNat]
 
 theorem sdesTextTooLong_of_ok {cs : List SdesChunk} (h : ∀ c ∈ cs, ∀ i ∈ c.items, i.text.length ≤ 255) :
     sdesTextTooLong cs = false := by
